@@ -260,8 +260,10 @@ def bodyHoist (sc : Scope) : Tmpl → Stmt
   | .block _ _ _ body => hoist sc body
   | _ => .skip
 
-/-- (history: before 6d51f05.. the `DefVisitor` also collected every def textually inside a control line or a
-    nested `<%call>`; kept for reference, no longer used by `callDefs`) -/
+/-- history: before 4a9e6c6 the `DefVisitor` also wrote into `ccall` every def and block textually inside a
+    control line or a nested `<%call>` of the call; this was that collection.  `callDefs` no longer uses it and
+    nothing in the generated code depends on it (it stays only because `Codegen/Calls.lean` records that it is
+    empty on its fragment). -/
 def deepDefs (sc : Scope) : Tmpl → Stmt
   | .seq a b => .seq (deepDefs sc a) (deepDefs sc b)
   | .ite _ t e => .seq (deepDefs sc t) (deepDefs sc e)
